@@ -117,7 +117,7 @@ func runModel(cases []Case) ([][]string, error) {
 	cmd.Stdin = &in
 	var out bytes.Buffer
 	cmd.Stdout = &out
-	cmd.Stderr = os.Stderr
+	cmd.Stderr = realStderr
 	if err := cmd.Run(); err != nil {
 		return nil, fmt.Errorf("lean driver failed: %v", err)
 	}
